@@ -1393,6 +1393,14 @@ class Vector():
 				dtype=dtype)
 
 
+	def _stacked(self, columns):
+		"""Columns of one length make a table that carries our dtype; a ragged stack
+		is not a table (Vector.__new__ warns) but a vector whose elements are the
+		vectors themselves, so its dtype is inferred from what it really holds."""
+		if len({len(c) for c in columns}) != 1:
+			return Vector(columns)
+		return Vector(columns, dtype=self._dtype)
+
 	def __rshift__(self, other):
 		""" The >> operator behavior has been overridden to add the column(s) of other to self
 		"""
@@ -1402,16 +1410,13 @@ class Vector():
 		if type(other).__name__ == 'Table':
 			if not self._dtype.nullable and not other.schema().nullable and self._dtype.kind != other.schema().kind:
 				raise SerifTypeError("Cannot concatenate two typesafe Vectors of different types")
-			return Vector((self,) + other.cols(),
-				dtype=self._dtype)
+			return self._stacked((self,) + other.cols())
 		if isinstance(other, Vector):
 			if not self._dtype.nullable and not other.schema().nullable and self._dtype.kind != other.schema().kind:
 				raise SerifTypeError("Cannot concatenate two typesafe Vectors of different types")
-			return Vector((self,) + (other,),
-				dtype=self._dtype)
+			return self._stacked((self, other))
 		if isinstance(other, Iterable) and not isinstance(other, (str, bytes, bytearray)):
-			return Vector([self, Vector(tuple(x for x in other))],
-				dtype=self._dtype)
+			return self._stacked((self, Vector(tuple(x for x in other))))
 		elif not self:
 			return Vector((other,),
 				dtype=self._dtype)
